@@ -54,14 +54,15 @@ type Cfg struct {
 	MaxAttempts        uint64
 	FeePerSigner       sdk.Coins
 	Blocks             int
-	PSubmit            int  // % chance an assigned member submits in a given block
-	LazyMembers        int  // members that never submit signatures (force time-outs)
-	Hostile            bool // corrupted / misplaced partial signatures
-	FailpointPct       int  // % of signing-member assignments that fail after the DE dequeue
-	FailpointMode      int  // 0 error, 1 panic on end-block paths
-	ParamChanges       bool // change tss params mid history
-	FeeChanges         bool // change bandtss fee_per_signer mid history (signings in flight keep the fee they were charged)
-	DEOps              bool // resets, over-limit submissions
+	PSubmit            int           // % chance an assigned member submits in a given block
+	LazyMembers        int           // members that never submit signatures (force time-outs)
+	Hostile            bool          // corrupted / misplaced partial signatures
+	FailpointPct       int           // % of signing-member assignments that fail after the DE dequeue
+	FailpointMode      int           // 0 error, 1 panic on end-block paths
+	ParamChanges       bool          // change tss params mid history
+	FeeChanges         bool          // change bandtss fee_per_signer mid history (signings in flight keep the fee they were charged)
+	GovVotingPeriod    time.Duration // > 0: x/gov is usable with this voting period (sim.Config.GovVotingPeriod)
+	DEOps              bool          // resets, over-limit submissions
 	Inflation          bool
 	InitialDEs         int
 	ReqPerBlockPct     int
@@ -218,7 +219,7 @@ func NewHist(run *sim.Run, label string, caseID int, cfg Cfg, mons func(h *Hist)
 	if nv == 0 {
 		nv = 3
 	}
-	w := sim.NewWorld(sim.Config{
+	w := sim.NewWorld(sim.Config{GovVotingPeriod: cfg.GovVotingPeriod,
 		Seed: rng.U64(), ChainID: chainID, NumVals: nv, NumUsers: cfg.NMembers + 3 + cfg.ExtraUsers, NoInflation: !cfg.Inflation,
 		Genesis: func(w *sim.World, gs band.GenesisState) {
 			cdc := w.App.AppCodec()
